@@ -66,7 +66,8 @@ class Ref:
             e = alive.get(cmd[1])
             if e is not None:
                 if cmd[2] in e["c"]:
-                    return "assign of a component the entity already has"
+                    # a RECORDED assign of a held component replaces the value when it is applied (the immediate call throws)
+                    return None if (len(cmd) > 3 and cmd[3] == "re") else "assign of a component the entity already has"
                 e["c"] = closure(e["c"] | {cmd[2]})
         return None
 
@@ -109,7 +110,7 @@ class Gen:
     """Structured op-sequence generator. `mix` = dict op -> weight."""
 
     def __init__(self, rng, mix, max_threads=3, storagecap=None, malformed=0.0, lock_bias=0.15,
-                 avoid=frozenset(), letters=LETTERS, ndeps=0, shared=False, latedep_held=False):
+                 avoid=frozenset(), letters=LETTERS, ndeps=0, shared=False, latedep_held=False, reassign=False):
         self.r = rng
         self.mix = mix
         self.ref = Ref()
@@ -120,6 +121,7 @@ class Gen:
         self.avoid = avoid
         self.letters = letters
         self.shared = shared
+        self.reassign = reassign           # recorded assigns of a component the entity will hold when they are applied
         self.latedep_held = latedep_held   # late declarations also for components that live entities hold
         self.ref.threads = rng.randint(1, max_threads)
         self.emit("threads %d" % self.ref.threads)
@@ -205,6 +207,14 @@ class Gen:
             if o is None:
                 return
             cands = [c for c in self.letters if c not in e["c"]]
+            held = sorted(ref.projected()[0].get(o, {"c": set()})["c"]) if (locked and self.reassign) else []
+            if held and op == "assign" and r.random() < 0.15 and "assign_remove_same_pack" not in self.avoid:
+                # deferred re-assignment of a component the entity holds when the command is applied: the value is replaced
+                c = r.choice([x for x in held if x != "D"] or held)
+                if c != "D" and not self._touches(t, o, c) and not ref.projected((t, ("assign", o, c, "re")))[2]:
+                    self.cmd(t, ("assign", o, c, "re"))
+                    self.emit("%sassign %d %s %d" % (p, o, c, self.newtok()))
+                return
             if not cands:
                 return
             c = r.choice(cands)
